@@ -158,7 +158,7 @@ class InotifyEmitter(EventEmitter):
             src_path = self._decode_path(event.src_path)
             if event.is_moved_from and event.is_directory and self.watch.is_recursive:
                 # No matching IN_MOVED_TO arrived: the directory has left the watched tree.
-                inotify.remove_watches_under(event.src_path)
+                inotify.remove_watches_under(event)
             if event.is_moved_to:
                 if full_events:
                     cls = DirMovedEvent if event.is_directory else FileMovedEvent
